@@ -729,3 +729,322 @@ Proof.
   { unfold l0. rewrite <- (map_length idx (reset_actions false (execs t))), idx_reset, map_length. reflexivity. }
   rewrite Hlen, skipn_app, skipn_all, Nat.sub_diag. simpl. apply map_idx_new.
 Qed.
+
+(* ------------------------------------------------------------------ *)
+(* liveness of the fixed variant, all event lists: a RUNNING task always has a RUNNING item or an unhandled
+   completion, and its capacity counter is exact *)
+
+Record LI (t : task) : Prop := {
+  l_eq : tst t = TRunning -> forall c, conc t = Some c ->
+         exists k, cap t = Some k /\ k + running (execs t) + length (jobs t) = c;
+  l_all : tst t = TRunning -> conc t = None -> forall i, i < count t -> occupied (execs t) i = true;
+  l_run : tst t = TRunning ->
+          0 < count t /\ (running (execs t) = 0 -> jobs t = [] -> False) /\
+          (has_cancelled (execs t) = true -> jobs t <> [])
+}.
+
+Lemma occupied_app : forall l1 l2 i, occupied (l1 ++ l2) i = occupied l1 i || occupied l2 i.
+Proof. intros. unfold occupied, idx_in. apply existsb_app. Qed.
+
+Lemma occupied_new : forall l i, In i l -> occupied (map new_exec l) i = true.
+Proof.
+  intros l i H. unfold occupied. eapply (idx_in_intro p_started _ i (new_exec i)); [apply in_map; exact H|reflexivity|reflexivity].
+Qed.
+
+(* after a non-empty batch *)
+Lemma LI_sched_nonempty : forall t,
+  tst t = TRunning -> Core t ->
+  (forall c, conc t = Some c -> exists k, cap t = Some k /\ k + running (execs t) + length (jobs t) = c) ->
+  (conc t = None -> cap t = None) ->
+  has_cancelled (execs t) = false ->
+  next_indexes_fx t <> [] -> LI (schedule_body_fx t).
+Proof.
+  intros t Ht HC Heq Hnone Hhc Hne.
+  pose proof (next_fx_in t) as Hin2.
+  unfold schedule_body_fx. destruct (next_indexes_fx t) as [|x l] eqn:E; [contradiction|].
+  constructor; cbn [execs set_cap set_execs prepared count nitems cap conc jobs tst]; intros _.
+  - intros c Hc. destruct (Heq c Hc) as [k [Hk Hsum]]. rewrite Hk. cbn [dec_cap]. eexists. split; [reflexivity|].
+    assert (Hlen : length (x :: l) <= k).
+    { rewrite <- E. unfold next_indexes_fx. rewrite Hk. apply length_take_cap_le. }
+    rewrite running_app, running_new. lia.
+  - intros Hc i Hi. rewrite occupied_app. destruct (occupied (execs t) i) eqn:Eo; [reflexivity|]. cbn [orb].
+    apply occupied_new. rewrite <- E. unfold next_indexes_fx. rewrite (Hnone Hc). cbn [take_cap].
+    apply all_next_fx_spec. auto.
+  - split; [|split].
+    + destruct (Hin2 x (or_introl eq_refl)) as [Hx _]. lia.
+    + rewrite running_app, running_new. simpl. intros; lia.
+    + rewrite has_cancelled_app, Hhc, has_cancelled_new. intros; discriminate.
+Qed.
+
+Lemma LI_not_running : forall t, tst t <> TRunning -> LI t.
+Proof. intros t H. constructor; intros Ht; exfalso; exact (H Ht). Qed.
+
+Lemma sched_fx_tst : forall t, tst t = TRunning ->
+  (next_indexes_fx t = [] /\ tst (schedule_body_fx t) = TSuccess) \/
+  (next_indexes_fx t <> [] /\ tst (schedule_body_fx t) = TRunning).
+Proof.
+  intros t Ht. unfold schedule_body_fx. destruct (next_indexes_fx t) eqn:E.
+  - left. split; [reflexivity|]. unfold complete. rewrite Ht. reflexivity.
+  - right. split; [discriminate|exact Ht].
+Qed.
+
+(* scheduling from a quiet state (Start, Continue, Rerun) *)
+Lemma LI_sched_quiet : forall t,
+  tst t = TRunning -> Core t -> Quiet t -> has_cancelled (execs t) = false -> LI (schedule_body_fx t).
+Proof.
+  intros t Ht HC [HR HQ] Hhc. destruct (sched_fx_tst t Ht) as [[_ Hs]|[Hne _]].
+  - apply LI_not_running. rewrite Hs. discriminate.
+  - apply LI_sched_nonempty; try assumption.
+    + intros c Hc. destruct (HQ c Hc) as [Hk Hj]. exists c. rewrite HR, Hj. split; [exact Hk|simpl; lia].
+    + intros Hc. destruct HC as [_ [_ [_ HCap]]]. unfold CapOK in HCap. rewrite Hc in HCap. exact HCap.
+Qed.
+
+Lemma has_cancelled_reset : forall f l, has_cancelled (reset_actions f l) = false.
+Proof.
+  intros f l. unfold has_cancelled. destruct (existsb _ (reset_actions f l)) eqn:E; [|reflexivity]. exfalso.
+  apply existsb_exists in E. destruct E as [e' [Hin He]]. rewrite reset_is_mapf in Hin. apply in_map_iff in Hin.
+  destruct Hin as [e [Hee _]]. subst e'. apply andb_true_iff in He. destruct He as [Ha Hc].
+  destruct (resetf_acc f e Ha) as [Hae Hst]. rewrite Hst in Hc.
+  unfold resetf in Ha. rewrite Hae, Hc in Ha. rewrite orb_true_r, orb_true_r in Ha. cbn [acc] in Ha. discriminate.
+Qed.
+
+Lemma occupied_ext : forall l l' i,
+  map idx (filter p_started l') = map idx (filter p_started l) -> occupied l' i = occupied l i.
+Proof.
+  intros l l' i H. destruct (occupied l i) eqn:E.
+  - apply occupied_iff. rewrite H. apply occupied_iff. exact E.
+  - destruct (occupied l' i) eqn:E'; [|reflexivity]. apply occupied_iff in E'. rewrite H in E'.
+    apply occupied_iff in E'. congruence.
+Qed.
+
+Lemma LI_accept : forall t i o v, XI t -> LI t -> LI (accept i o v t).
+Proof.
+  intros t i o v X L. unfold accept. destruct (nth_error (execs t) i) as [e|] eqn:En; [|exact L].
+  destruct (e_running (st e)) eqn:Er; [|exact L].
+  pose proof (running_upd (execs t) i e (mkExec (idx e) (outcome_state o) true v) En Er (outcome_not_running o)) as Hr.
+  destruct L as [Leq Lall Lrun].
+  constructor; cbn [execs set_jobs set_execs prepared count nitems cap conc jobs tst]; intros Ht.
+  - intros c Hc. destruct (Leq Ht c Hc) as [k [Hk Hsum]]. exists k. split; [exact Hk|]. rewrite app_length. simpl. lia.
+  - intros Hc j Hj. rewrite (occupied_ext (execs t)); [exact (Lall Ht Hc j Hj)|].
+    eapply started_upd; [exact En|reflexivity| |reflexivity]. unfold p_started. rewrite Er. apply orb_true_r.
+  - destruct (Lrun Ht) as [Hc _]. split; [exact Hc|]. split.
+    + intros _ Hj. exact (app_one_not_nil _ _ _ Hj).
+    + intros _. apply app_one_not_nil.
+Qed.
+
+Lemma acc_le_count : forall l n,
+  NoDup (map idx (filter p_started l)) -> Forall (fun e => idx e < n) l -> length (filter acc l) <= n.
+Proof.
+  intros l n Hnd HF.
+  assert (HndA : NoDup (map idx (filter acc l))) by (eapply NoDup_sub_filter; [apply acc_started|exact Hnd]).
+  assert (Hincl : incl (map idx (filter acc l)) (seq 0 n)).
+  { intros x Hx. apply in_map_iff in Hx. destruct Hx as [e [He Hin]]. apply filter_In in Hin.
+    rewrite Forall_forall in HF. specialize (HF e (proj1 Hin)). apply in_seq. lia. }
+  pose proof (NoDup_incl_length HndA Hincl) as H. rewrite map_length, seq_length in H. exact H.
+Qed.
+
+Lemma started_is_acc : forall l, running l = 0 -> filter p_started l = filter acc l.
+Proof.
+  intros l HR. apply filter_ext_in. intros e He. pose proof (running_zero_all _ HR) as Hz.
+  rewrite Forall_forall in Hz. unfold p_started. rewrite (Hz e He). apply orb_false_r.
+Qed.
+
+Lemma schedule_body_fx_tst_any : forall t,
+  tst (schedule_body_fx t) = tst t \/ tst (schedule_body_fx t) = TSuccess.
+Proof.
+  intros t. unfold schedule_body_fx. destruct (next_indexes_fx t).
+  - unfold complete. destruct (t_completed (tst t)); [left; reflexivity|right; reflexivity].
+  - left. reflexivity.
+Qed.
+
+Lemma LI_handle : forall t i, XI t -> LI t -> LI (step_fx t (Handle i)).
+Proof.
+  intros t i X L. cbn [step_fx]. destruct (mem i (jobs t)) eqn:Em; [|exact L].
+  apply mem_true_in in Em. pose proof (length_remove_first _ _ Em) as Hlen.
+  set (js := remove_first i (jobs t)) in *.
+  pose proof (x_ni t X) as Xni'.
+  destruct (tst t) eqn:Et;
+    try (apply LI_not_running; unfold on_action_complete_fx; cbn [tst set_jobs]; rewrite Et; cbn [t_completed tst set_jobs]; rewrite ?Et; discriminate).
+  - exfalso. apply Xni'. reflexivity.
+  - (* RUNNING *)
+    destruct X as [Xni Xcore Xnd Xacc Xpos Xq Xcov Xdel]. destruct L as [Leq Lall Lrun].
+    destruct Xcore as [Hp [Hcn [HF HCap]]]. destruct (Lrun Et) as [Hcnt [_ _]].
+    unfold on_action_complete_fx. cbn [tst set_jobs]. rewrite Et. cbn [t_completed].
+    assert (HCapS : match conc t with
+                    | None => cap t = None
+                    | Some c => exists k, cap t = Some k /\ k + running (execs t) + S (length js) <= c
+                    end).
+    { unfold CapOK in HCap. destruct (conc t) as [c|]; [|exact HCap].
+      destruct HCap as [k [Hk Hle]]. exists k. split; [exact Hk|lia]. }
+    set (t0 := set_jobs js t).
+    pose proof (inc_cap_facts t0 HCapS) as Hf. cbn zeta in Hf.
+    destruct Hf as [He1 [Ht1 [Hc1 [Hj1 [Hn1 [Hni1 [Hp1 Hcap1]]]]]]].
+    set (t1 := increase_capacity t0) in *.
+    cbn [execs tst conc jobs count nitems prepared t0 set_jobs] in He1, Ht1, Hc1, Hj1, Hn1, Hni1, Hp1, Hcap1.
+    assert (Heq1 : forall c, conc t = Some c -> exists k, cap t1 = Some k /\ k + running (execs t) + length js = c).
+    { intros c Hc. destruct (Leq Et c Hc) as [k [Hk Hsum]]. rewrite Hc in Hcap1. destruct Hcap1 as [k1 [Hk1 _]].
+      unfold t1, increase_capacity in Hk1 |- *. cbn [conc cap t0 set_jobs] in Hk1 |- *. rewrite Hc, Hk in Hk1 |- *.
+      assert (Hlt : k <? c = true) by (apply Nat.ltb_lt; lia). rewrite Hlt in Hk1 |- *.
+      cbn [cap set_cap]. exists (S k). split; [reflexivity|lia]. }
+    assert (HC1 : Core t1).
+    { unfold Core, CapOK. rewrite Hp1, Hn1, Hni1, He1, Hc1, Hj1. repeat split; try assumption.
+      destruct (conc t) as [c|]; [|exact Hcap1]. destruct Hcap1 as [k [Hk Hle]]. exists (S k). split; [exact Hk|exact Hle]. }
+    destruct (items_completed t1) eqn:Eic.
+    + apply LI_not_running. unfold complete. rewrite Ht1, Et. cbn [t_completed tst set_tst].
+      destruct (final_state_cases (execs t1)) as [[_ H]|[_ [H|H]]]; rewrite H; discriminate.
+    + assert (Hhc : has_cancelled (execs t) = false).
+      { unfold items_completed in Eic. rewrite He1 in Eic. destruct (has_cancelled (execs t)); [discriminate|reflexivity]. }
+      destruct (has_more t1 && match conc t1 with Some _ => true | None => false end) eqn:Ebr.
+      * apply andb_true_iff in Ebr. destruct Ebr as [Hhm Hcs]. rewrite Hc1 in Hcs.
+        destruct (conc t) as [c|] eqn:Ec; [|discriminate].
+        unfold schedule_fx. rewrite prepare_prepared by (rewrite Hp1; exact Hp).
+        destruct Hcap1 as [k [Hk Hle]].
+        apply LI_sched_nonempty.
+        -- rewrite Ht1. exact Et.
+        -- exact HC1.
+        -- rewrite Hc1, He1, Hj1. exact Heq1.
+        -- rewrite Hc1. intros; discriminate.
+        -- rewrite He1. exact Hhc.
+        -- apply (has_more_next_nonempty t1 k); [rewrite He1; exact Xnd|exact Hhm|exact Hk].
+      * constructor; rewrite ?Ht1, ?He1, ?Hc1, ?Hj1, ?Hn1; intros _.
+        -- exact Heq1.
+        -- exact (Lall Et).
+        -- split; [exact Hcnt|]. split; [|rewrite Hhc; intros; discriminate].
+           intros HR0 Hjs.
+           assert (Hle : length (filter acc (execs t)) <= count t) by (apply acc_le_count; assumption).
+           unfold items_completed in Eic. rewrite He1, Hhc, Hn1 in Eic.
+           assert (Hcount' : (if count t =? 0 then 1 else count t) = count t).
+           { destruct (count t =? 0) eqn:E0; [apply Nat.eqb_eq in E0; lia|reflexivity]. }
+           rewrite Hcount' in Eic.
+           assert (Hfull : full_capacity t1 = true).
+           { unfold full_capacity. rewrite Hc1. destruct (conc t) as [c|] eqn:Ec; [|reflexivity].
+             destruct (Heq1 c eq_refl) as [k [Hk Hsum]]. rewrite Hk, HR0, Hjs in *. simpl in Hsum.
+             assert (k = c) by lia. subst k. simpl. apply Nat.eqb_refl. }
+           rewrite Hfull, andb_true_r in Eic. apply Nat.eqb_neq in Eic.
+           rewrite Hc1 in Ebr.
+           assert (Hge : count t <= length (filter acc (execs t))).
+           { destruct (conc t) as [c|] eqn:Ec.
+             - rewrite andb_true_r in Ebr. unfold has_more in Ebr. rewrite He1, Hn1 in Ebr.
+               apply Nat.ltb_ge in Ebr. rewrite (started_is_acc _ HR0) in Ebr. exact Ebr.
+             - assert (Hincl : incl (seq 0 (count t)) (map idx (filter acc (execs t)))).
+               { intros j Hj. apply in_seq in Hj. assert (Hj' : j < count t) by lia.
+                 pose proof (Lall Et eq_refl j Hj') as Ho. apply occupied_iff in Ho.
+                 rewrite (started_is_acc _ HR0) in Ho. exact Ho. }
+               pose proof (NoDup_incl_length (seq_NoDup (count t) 0) Hincl) as H.
+               rewrite seq_length, map_length in H. exact H. }
+           lia.
+  - (* RUNNING_DELAYED: the task does not become RUNNING through a Handle *)
+    apply LI_not_running. unfold on_action_complete_fx. cbn [tst set_jobs]. rewrite Et. cbn [t_completed].
+    set (t1 := increase_capacity (set_jobs js t)).
+    assert (Ht1 : tst t1 = TDelayed).
+    { unfold t1, increase_capacity. cbn [conc cap set_jobs]. destruct (conc t); [|exact Et].
+      destruct (cap t); [|exact Et]. destruct (_ <? _); exact Et. }
+    destruct (items_completed t1).
+    + unfold complete. rewrite Ht1. cbn [t_completed tst set_tst].
+      destruct (final_state_cases (execs t1)) as [[_ H]|[_ [H|H]]]; rewrite H; discriminate.
+    + destruct (has_more t1 && _).
+      * unfold schedule_fx. destruct (schedule_body_fx_tst_any (prepare t1)) as [H|H]; rewrite H; [rewrite tst_prepare, Ht1|]; discriminate.
+      * rewrite Ht1. discriminate.
+Qed.
+
+Lemma LI_start : forall n c, LI (step_fx init (Start n c)).
+Proof.
+  intros n c. cbn [step_fx tst init execs prepared cap count jobs]. unfold schedule_fx.
+  set (t0 := prepare _).
+  assert (Ht0 : t0 = mkTask [] n (policy_conc c) true (policy_conc c) n TRunning []) by reflexivity.
+  rewrite Ht0. apply LI_sched_quiet; cbn [execs tst conc cap jobs].
+  - reflexivity.
+  - unfold Core, CapOK. cbn. repeat split; [constructor|].
+    destruct (policy_conc c) as [k|]; [exists k; split; [reflexivity|lia]|reflexivity].
+  - split; [reflexivity|]. cbn [conc cap jobs]. intros k Hk. rewrite Hk. split; reflexivity.
+  - reflexivity.
+Qed.
+
+Lemma LI_continue : forall t, XI t -> LI t -> LI (step_fx t Continue).
+Proof.
+  intros t X L. cbn [step_fx]. destruct (tst t) eqn:Et; try exact L.
+  destruct X as [Xni Xcore Xnd Xacc Xpos Xq Xcov Xdel].
+  destruct (Xq (or_intror (or_intror Et))) as [HR HQ].
+  unfold schedule_fx. rewrite prepare_prepared by (apply Xcore).
+  apply LI_sched_quiet; cbn [execs set_tst set_execs prepared count nitems cap conc jobs tst].
+  - reflexivity.
+  - destruct Xcore as [Hp [Hc [HF HCap]]]. unfold Core.
+    cbn [execs set_tst set_execs prepared count nitems cap conc jobs tst]. repeat split; try assumption.
+    + eapply (Forall_idx_transfer (fun i => i < count t)); [apply idx_reset|exact HF].
+    + unfold CapOK in *. cbn [execs set_tst set_execs prepared count nitems cap conc jobs tst].
+      rewrite running_reset. exact HCap.
+  - unfold Quiet. cbn [execs set_tst set_execs prepared count nitems cap conc jobs tst]. rewrite running_reset.
+    split; [exact HR|exact HQ].
+  - apply has_cancelled_reset.
+Qed.
+
+Lemma LI_rerun : forall t f, XI t -> LI t -> LI (step_fx t (Rerun f)).
+Proof.
+  intros t f X L. cbn [step_fx]. destruct (tst t) eqn:Et; try exact L.
+  destruct X as [Xni Xcore Xnd Xacc Xpos Xq Xcov Xdel].
+  destruct (Xq (or_intror (or_introl Et))) as [HR HQ].
+  destruct Xcore as [Hp [Hc [HF HCap]]].
+  unfold schedule_fx.
+  set (l0 := reset_actions f (execs t)).
+  assert (Hprep : prepare (set_execs l0 (set_tst TRunning (cleanup t))) =
+                  mkTask l0 (nitems t) (conc t) true (conc t) (nitems t) TRunning (jobs t)) by reflexivity.
+  rewrite Hprep. clear Hprep.
+  apply LI_sched_quiet; cbn [execs prepared count nitems cap conc jobs tst].
+  - reflexivity.
+  - unfold Core, CapOK. cbn [execs prepared count nitems cap conc jobs tst]. repeat split.
+    + eapply (Forall_idx_transfer (fun i => i < nitems t)); [apply idx_reset|]. rewrite <- Hc. exact HF.
+    + unfold l0. rewrite running_reset. destruct (conc t) as [c|] eqn:Ec; [|reflexivity].
+      destruct (HQ c eq_refl) as [_ Hj]. exists c. rewrite HR, Hj. split; [reflexivity|simpl; lia].
+  - unfold Quiet. cbn [execs prepared count nitems cap conc jobs tst]. unfold l0. rewrite running_reset.
+    split; [exact HR|]. intros c Hcc. split; [exact Hcc|]. destruct (HQ c Hcc) as [_ Hj]. exact Hj.
+  - apply has_cancelled_reset.
+Qed.
+
+Lemma LI_retry : forall t, LI t -> LI (step_fx t RetryInvalidate).
+Proof.
+  intros t L. cbn [step_fx]. destruct (tst t) eqn:Et; try exact L; apply LI_not_running; discriminate.
+Qed.
+
+Lemma XLI_fold : forall evs t, (t = init \/ (XI t /\ LI t)) ->
+  fold_left step_fx evs t = init \/ (XI (fold_left step_fx evs t) /\ LI (fold_left step_fx evs t)).
+Proof.
+  induction evs as [|e evs IH]; intros t H; [exact H|]. simpl. apply IH.
+  destruct H as [Hi|[X L]].
+  - subst t. destruct e as [n c|i o v|i| | |f]; try (left; apply step_fx_init; intros; discriminate).
+    right. split; [apply XI_start|apply LI_start].
+  - right. split.
+    + destruct e as [n c|i o v|i| | |f].
+      * cbn [step_fx]. destruct (tst t) eqn:Et; try exact X. exfalso. exact (x_ni t X Et).
+      * apply XI_accept; assumption.
+      * apply XI_handle; assumption.
+      * apply XI_retry; assumption.
+      * apply XI_continue; assumption.
+      * apply XI_rerun; assumption.
+    + destruct e as [n c|i o v|i| | |f].
+      * cbn [step_fx]. destruct (tst t) eqn:Et; try exact L. exfalso. exact (x_ni t X Et).
+      * apply LI_accept; assumption.
+      * apply LI_handle; assumption.
+      * apply LI_retry; assumption.
+      * apply LI_continue; assumption.
+      * apply LI_rerun; assumption.
+Qed.
+
+Lemma XLI_run : forall evs, run_fx evs = init \/ (XI (run_fx evs) /\ LI (run_fx evs)).
+Proof. intros evs. apply XLI_fold. left. reflexivity. Qed.
+
+(* the fixed task cannot hang, whatever the history of retries and reruns *)
+Theorem fx_no_stuck : forall evs, tst (run_fx evs) = TRunning ->
+  0 < running (execs (run_fx evs)) \/ jobs (run_fx evs) <> [].
+Proof.
+  intros evs Ht. destruct (XLI_run evs) as [Hi|[_ L]]; [rewrite Hi in Ht; discriminate|].
+  destruct (l_run _ L Ht) as [_ [Hns _]].
+  destruct (running (execs (run_fx evs))) as [|r]; [|left; lia].
+  right. intros Hj. exact (Hns eq_refl Hj).
+Qed.
+
+Theorem fx_capacity_exact : forall evs c, tst (run_fx evs) = TRunning -> conc (run_fx evs) = Some c ->
+  exists k, cap (run_fx evs) = Some k /\ k + running (execs (run_fx evs)) + length (jobs (run_fx evs)) = c.
+Proof.
+  intros evs c Ht Hc. destruct (XLI_run evs) as [Hi|[_ L]]; [rewrite Hi in Ht; discriminate|].
+  exact (l_eq _ L Ht c Hc).
+Qed.
